@@ -1,4 +1,4 @@
-import PV.Lemmas.IPC
+import PV.Lemmas.IPCKey
 /-!
 # C07 — shared memory (`pshm-posix.c` over the POSIX name space model `PV.IPC.OS`)
 
@@ -196,14 +196,17 @@ theorem no_fault_below_size (g : G) (t : Tid) (h : Hid) (k : ShmKey) (req : Nat)
 /-- `p_shm_free` removes exactly the mapping `p_shm_new` created — creator or follower, whatever the
     size argument: the process's mappings are those it had before.  (False of the code before fix F5:
     a follower with a smaller size argument mapped the whole segment and unmapped only the clamped size.)
-    `hfresh`: addresses are handed out increasingly (no older mapping sits at the next address). -/
+    Address freshness is no longer a hypothesis: it is part of `MapInv`, an invariant of every reachable
+    state (`mapInv_reachable`).  The version for any interleaving is `unmap_exact_interleaved`. -/
 theorem unmap_exact (g : G) (t : Tid) (h : Hid) (k : ShmKey) (req : Nat)
     (hi : Idle g t) (hh : g.hs h = none)
     (hok : (g.os.shmNames k = none ∧ req ≠ 0 ∧ g.os.semNames (.lock k) = none) ∨
            (∃ s ol, g.os.shmNames k = some s ∧ (g.os.segs s).bytes.length ≠ 0 ∧ g.os.semNames (.lock k) = some ol))
-    (hfresh : ∀ m ∈ (g.os.procs (g.pidOf t)).maps, m.addr ≠ (g.os.procs (g.pidOf t)).nextAddr) :
+    (hM : MapInv g) :
     let g2 := (g.call t (.newShm h k req false)).call t (.free h)
     (g2.os.procs (g.pidOf t)).maps = (g.os.procs (g.pidOf t)).maps ∧ g2.hs h = none := by
+  have hfresh : ∀ m ∈ (g.os.procs (g.pidOf t)).maps, m.addr ≠ (g.os.procs (g.pidOf t)).nextAddr :=
+    fun m hm => Nat.ne_of_lt (hM.claims.fresh _ m hm)
   simp only
   rcases hok with ⟨hk, hs, hl⟩ | ⟨s, ol, hk, hL, hl⟩
   · have c := call_newShm_fresh g t h k req false hi hh hk hl hs
@@ -399,6 +402,80 @@ set_option maxRecDepth 100000 in
 theorem crash_points_of_creation :
     ([0, 2, 3, 4, 5, 6].all fun j => nonZeroIfBound (crashAt (G.init id) 0 (.newShm 0 0 64 false) j) 0) = true ∧
     nonZeroIfBound (crashAt (G.init id) 0 (.newShm 0 0 64 false) 1) 0 = false := by decide
+
+/-! ## any interleaving: the follower's own system calls interleave with everybody else's
+
+`MapInv` (who owns which mapping; address freshness) holds in every reachable state.  `KeyInv k s L`
+("the segment of `k` exists": bound to `s` of `L` bytes, all live handles of `k` mapped to `s`, all
+`p_shm_new (k)` in flight are followers that have only seen `s`, nobody is about to `ftruncate s`) is
+established by a first creation and preserved by EVERY schedule without a `shm_unlink (k)` — which only
+an owner free or a failing creator of `k` issues (`segment_exists_until_owner_free`). -/
+
+/-- every state reachable from the initial one satisfies `MapInv` and `SegWF` -/
+theorem reachable_invariants (pidOf : Tid → Pid) (as : List Action) :
+    MapInv (execAll (G.init pidOf) as) ∧ SegWF (execAll (G.init pidOf) as) :=
+  ⟨mapInv_reachable pidOf as, segWF_execAll as _ (segWF_init pidOf)⟩
+
+/-- a first creation of `k` (no live handle of `k`, no `p_shm_new (k)` in flight) establishes the
+    invariant, and any schedule without `shm_unlink (k)` keeps it — whatever `p_shm_new`, `p_shm_free`,
+    lock, unlock, store or SIGKILL steps of whatever threads and processes it interleaves -/
+theorem segment_exists_while_not_unlinked (g : G) (t : Tid) (h : Hid) (k : ShmKey) (size : Nat) (ro : Bool) (as : List Action)
+    (hM : MapInv g) (hS : SegWF g) (hi : Idle g t) (hh : g.hs h = none) (hk : g.os.shmNames k = none) (hs : size ≠ 0)
+    (hnoH : ∀ h' p y, g.hs h' = some (p, .shm y) → y.key ≠ k)
+    (hnoF : ∀ t' hid st, g.calls t' = some (.shmNew hid st) → st.key ≠ k)
+    (hq : NoShmUnlink k (g.call t (.newShm h k size ro)) as) :
+    MapInv (execAll (g.call t (.newShm h k size ro)) as) ∧
+    KeyInv k g.os.nextSeg size (execAll (g.call t (.newShm h k size ro)) as) :=
+  keyInv_execAll k _ size as _ (mapInv_call g t _ [] hM)
+    (keyInv_after_creation g t h k size ro hM hS hi hh hk hs hnoH hnoF) hq
+
+/-- **same_name_same_bytes, any interleaving.**  While the segment of `k` exists (`MapInv ∧ KeyInv` at
+    `g0`, e.g. from `segment_exists_while_not_unlinked`) and for every schedule `as` without a
+    `shm_unlink (k)`: ANY two live handles of `k` in the resulting state — whenever and by whichever
+    interleaved `p_shm_new` calls of whichever threads / processes they were opened — address the same
+    memory: a byte stored through one is loaded through the other at every offset below both sizes. -/
+theorem same_name_same_bytes_interleaved (k : ShmKey) (s : SegId) (L : Nat) (g0 : G) (as : List Action)
+    (hM : MapInv g0) (hK : KeyInv k s L g0) (hq : NoShmUnlink k g0 as)
+    (ta tb : Tid) (ha hb : Hid) (ya yb : PShm) (off : Nat) (b : UInt8) :
+    let g := execAll g0 as
+    Idle g ta → Idle g tb → g.hs ha = some (g.pidOf ta, .shm ya) → g.hs hb = some (g.pidOf tb, .shm yb) →
+    ya.key = k → yb.key = k → ya.ro = false → off < ya.size → off < yb.size →
+    ((g.call ta (.wr ha off b)).call tb (.rd hb off)).ret tb = some (.byte b) := by
+  intro g ia ib hha hhb ka kb hrw la lb
+  obtain ⟨hM', hK'⟩ := keyInv_execAll k s L as g0 hM hK hq
+  exact handles_share_bytes k s L g hM' hK' ta tb ha hb ya yb off b ia ib hha hhb ka kb hrw la lb
+
+/-- **no_fault_below_size, any interleaving**: every offset below `p_shm_get_size` of every live handle of
+    `k` is inside its mapping and inside the object, and the reported size never exceeds the segment's -/
+theorem no_fault_below_size_interleaved (k : ShmKey) (s : SegId) (L : Nat) (g0 : G) (as : List Action)
+    (hM : MapInv g0) (hK : KeyInv k s L g0) (hq : NoShmUnlink k g0 as)
+    (h : Hid) (p : Pid) (y : PShm) (off : Nat) :
+    (execAll g0 as).hs h = some (p, .shm y) → y.key = k → off < y.size →
+    y.size ≤ L ∧ ∃ b, (execAll g0 as).os.load p y.addr off = .val b := by
+  intro hy hk ho
+  obtain ⟨hM', hK'⟩ := keyInv_execAll k s L as g0 hM hK hq
+  exact ⟨(hK'.handles h p y hy hk).1, handle_no_fault k s L _ hM' hK' h p y hy hk off ho⟩
+
+/-- **unmap_exact, any interleaving**: in every reachable state the `munmap` step of ANY `p_shm_free`
+    in flight (any name, creator or follower, whatever else is running) removes exactly the one mapping
+    that the handle's `p_shm_new` created — it exists, is the only one at that address, has exactly the
+    handle's size — and no other mapping of any process -/
+theorem unmap_exact_interleaved (pidOf : Tid → Pid) (as : List Action) (t : Tid) (i : Bool) (st : ShmFreeSt) :
+    let g := execAll (G.init pidOf) as
+    g.calls t = some (.shmFree st) → st.pc = .munmap →
+    ∃ m, m ∈ (g.os.procs (g.pidOf t)).maps ∧ m.addr = st.h.addr ∧ m.len = st.h.size ∧
+      (∀ m' ∈ (g.os.procs (g.pidOf t)).maps, m'.addr = st.h.addr → m' = m) ∧
+      ((g.step t i).os.procs (g.pidOf t)).maps = (g.os.procs (g.pidOf t)).maps.filter (fun m' => decide (m'.addr ≠ st.h.addr)) ∧
+      ∀ q, q ≠ g.pidOf t → ((g.step t i).os.procs q).maps = (g.os.procs q).maps := by
+  intro g hc hpc
+  exact free_unmaps_exactly g t i st (mapInv_reachable pidOf as) hc hpc
+
+/-- address freshness is an invariant of the `mmap` model: in every reachable state every mapping of a
+    process lies below its next address, and no two mappings share an address -/
+theorem address_freshness (pidOf : Tid → Pid) (as : List Action) (p : Pid) :
+    (∀ m ∈ ((execAll (G.init pidOf) as).os.procs p).maps, m.addr < ((execAll (G.init pidOf) as).os.procs p).nextAddr) ∧
+    (((execAll (G.init pidOf) as).os.procs p).maps.map (·.addr)).Nodup :=
+  ⟨fun m hm => (mapInv_reachable pidOf as).claims.fresh p m hm, (mapInv_reachable pidOf as).claims.nodup p⟩
 
 /-! ## EINTR (cited by C19) -/
 
@@ -632,5 +709,78 @@ example : (interleavings 12 5).length = 792 ∧ ((interleavings 12 5).filter avo
 example : ∀ st : SemNewSt, st.mode = .open → st.pc = .excl → Call.quiet (.lock 0) (.shmNew 1 { key := 0, req := 0, ro := false, size := 0, pc := .sem st }) := by
   intro st hm hp
   simp [Call.quiet, SemNewSt.mayUnlink, hm, hp]
+
+/-! ### non-vacuity of the interleaved theorems -/
+
+/-- computable form of `NoShmUnlink` -/
+def noShmUnlinkB (k : ShmKey) : G → List Action → Bool
+  | _, [] => true
+  | g, a :: as =>
+    (match a with
+     | .step t _ => (match g.calls t with
+                     | some c => decide (c.next ≠ .shmUnlink k)
+                     | none => true)
+     | _ => true) && noShmUnlinkB k (exec g a) as
+
+theorem noShmUnlinkB_spec (k : ShmKey) (as : List Action) : ∀ g, noShmUnlinkB k g as = true → NoShmUnlink k g as := by
+  induction as with
+  | nil => intro g _; trivial
+  | cons a as ih =>
+    intro g h
+    simp only [noShmUnlinkB, Bool.and_eq_true] at h
+    refine ⟨?_, ih _ h.2⟩
+    cases a with
+    | step t i =>
+      intro c hc
+      have h1 := h.1
+      simp only [hc, decide_eq_true_eq] at h1
+      exact h1
+    | start t op => trivial
+    | kill p => trivial
+
+/-- process 0 has created name 0 (64 bytes); then processes 1 and 2 open it (16 bytes / whole segment)
+    with their system calls strictly alternating, while process 0 stores a byte in between -/
+def interleavedOpens : List Action :=
+  [.start 1 (.newShm 1 0 16 false), .start 2 (.newShm 2 0 0 false),
+   .step 1 false, .step 2 false, .step 1 false, .start 0 (.wr 0 3 7), .step 2 false, .step 1 false, .step 2 false,
+   .step 1 false, .step 2 false, .step 1 false, .step 2 false, .step 1 false, .step 2 false, .step 1 false, .step 2 false]
+
+set_option maxRecDepth 100000 in
+/-- the hypotheses of `segment_exists_while_not_unlinked` / `same_name_same_bytes_interleaved` /
+    `no_fault_below_size_interleaved` hold for this run, both followers got their handles, and the
+    handles are of different reported sizes -/
+example :
+    (G.init id).hs 0 = none ∧ (G.init id).os.shmNames 0 = none ∧
+    noShmUnlinkB 0 ((G.init id).call 0 (.newShm 0 0 64 false)) interleavedOpens = true ∧
+    (execAll ((G.init id).call 0 (.newShm 0 0 64 false)) interleavedOpens).hs 1 =
+      some (1, .shm ⟨false, 0, 1, 16, ⟨false, .lock 0, 0, .open, 1⟩, false⟩) ∧
+    (execAll ((G.init id).call 0 (.newShm 0 0 64 false)) interleavedOpens).hs 2 =
+      some (2, .shm ⟨false, 0, 1, 64, ⟨false, .lock 0, 0, .open, 1⟩, false⟩) ∧
+    (execAll ((G.init id).call 0 (.newShm 0 0 64 false)) interleavedOpens).calls 1 = none ∧
+    (execAll ((G.init id).call 0 (.newShm 0 0 64 false)) interleavedOpens).calls 2 = none := by decide
+
+/-- the state after that run -/
+def afterInterleavedOpens : G := execAll ((G.init id).call 0 (.newShm 0 0 64 false)) interleavedOpens
+
+set_option maxRecDepth 100000 in
+theorem afterInterleavedOpens_facts :
+    noShmUnlinkB 0 ((G.init id).call 0 (.newShm 0 0 64 false)) interleavedOpens = true ∧
+    afterInterleavedOpens.hs 1 = some (afterInterleavedOpens.pidOf 1, .shm ⟨false, 0, 1, 16, ⟨false, .lock 0, 0, .open, 1⟩, false⟩) ∧
+    afterInterleavedOpens.hs 2 = some (afterInterleavedOpens.pidOf 2, .shm ⟨false, 0, 1, 64, ⟨false, .lock 0, 0, .open, 1⟩, false⟩) ∧
+    (afterInterleavedOpens.os.procs (afterInterleavedOpens.pidOf 1)).alive = true ∧ afterInterleavedOpens.calls 1 = none ∧
+    (afterInterleavedOpens.os.procs (afterInterleavedOpens.pidOf 2)).alive = true ∧ afterInterleavedOpens.calls 2 = none := by
+  decide
+
+/-- … and the general theorem applies to it: what process 1 stores at offset 5 is what process 2 loads -/
+example (b : UInt8) :
+    ((afterInterleavedOpens.call 1 (.wr 1 5 b)).call 2 (.rd 2 5)).ret 2 = some (.byte b) := by
+  have hinit := reachable_invariants id []
+  obtain ⟨f0, f1, f2, f3, f4, f5, f6⟩ := afterInterleavedOpens_facts
+  have hex := segment_exists_while_not_unlinked (G.init id) 0 0 0 64 false interleavedOpens hinit.1 hinit.2 ⟨rfl, rfl⟩ rfl rfl
+    (by decide) (by intro h' p y hy; simp [G.init] at hy) (by intro t' hid st hc; simp [G.init] at hc)
+    (noShmUnlinkB_spec 0 _ _ f0)
+  exact same_name_same_bytes_interleaved 0 _ 64 afterInterleavedOpens [] hex.1 hex.2 trivial 1 2 1 2
+    ⟨false, 0, 1, 16, ⟨false, .lock 0, 0, .open, 1⟩, false⟩ ⟨false, 0, 1, 64, ⟨false, .lock 0, 0, .open, 1⟩, false⟩ 5 b
+    ⟨f3, f4⟩ ⟨f5, f6⟩ f1 f2 rfl rfl rfl (by decide) (by decide)
 
 end PV.IPC.C07
